@@ -57,7 +57,17 @@ def units_for(prop):
         spec_lines = [l for l in txt.split('\n') if re.match(r'\s*(props|safety)\s*:', l) or re.match(r'\s*\[[A-Z0-9, ]+', l)]
         if any(re.search(r'\b' + prop + r'\b', l) for l in spec_lines):
             res.append(u)
-    return res
+    # a contract assumed via //@use must be discharged in its home unit in the same run
+    changed = True
+    while changed:
+        changed = False
+        for u in list(res):
+            for mt in re.finditer(r'(?m)^\s*//@use\s+(\S+)', unit_text_with_includes(u)):
+                h = os.path.join(UNITS_DIR, mt.group(1))
+                if h not in res:
+                    res.append(h)
+                    changed = True
+    return sorted(res)
 
 
 def load_known():
@@ -105,7 +115,7 @@ def decide(prop, tier='quick', seed=0, units=None, jobs=8, quiet=False):
                 continue
             key = (f['emit_name'] if not f['qual'].count('::') else f['qual'].rsplit('::', 1)[0] + '::' + f['emit_name'])
             obl = r.obligations.get(key, {})
-            if f['known']:
+            if f['known'] or f['mode'] == 'external_body':
                 continue
             n = sum(obl.values())
             n_obl += n
